@@ -81,10 +81,18 @@ def case_strategy(draw):
     if ref.ndim >= 2 and draw(st.integers(0, 3)) == 0:
         mets.append("clDSC")
     mm = draw(st.sampled_from(["IOU", "DSC"]))
+    dtype = "uint8"
+    if draw(st.integers(0, 3)) == 0:  # label values beyond one byte (the two sides may then need different widths internally)
+        f = draw(st.sampled_from([100, 300, 20000]))
+        if it == "MATCHED_INSTANCE":
+            pred, ref = pred * f, ref * f
+        else:
+            pred, ref = pred * f, ref * draw(st.sampled_from([1, f]))
+        dtype = draw(st.sampled_from(["uint32", "uint64"] + (["int32", "int64"] if it == "SEMANTIC" else [])))
     return {
         "pred": pred.tolist(),
         "ref": ref.tolist(),
-        "dtype": "uint8",
+        "dtype": dtype,
         "input": it,
         "backend": draw(st.sampled_from([None, "cc3d", "scipy"])) if it == "SEMANTIC" else None,
         "matcher": None if it == "MATCHED_INSTANCE" else {"kind": draw(st.sampled_from(["naive", "naive", "merge"])), "metric": mm, "thr": thr, "m2o": False},
